@@ -486,14 +486,20 @@ class SymFloat:
     INTW = 80
 
     def _to_int(self, rm):
-        if bool(SymBool(z3.fpIsNaN(self.t))):
-            raise ValueError("cannot convert float NaN to integer")
-        if bool(SymBool(z3.fpIsInf(self.t))):
-            raise OverflowError("cannot convert float infinity to integer")
-        lim = float(1 << (self.INTW - 2))
-        if bool(SymBool(z3.Or(z3.fpGEQ(self.t, _fconst(lim)), z3.fpLEQ(self.t, _fconst(-lim))))):
-            raise Unsupported("float to int beyond %d bits" % self.INTW)
-        return SymInt(z3.fpToSBV(rm, self.t, z3.BitVecSort(self.INTW)))
+        b = fp_abs_bound(self.t)
+        if b is None:
+            if bool(SymBool(z3.fpIsNaN(self.t))):
+                raise ValueError("cannot convert float NaN to integer")
+            if bool(SymBool(z3.fpIsInf(self.t))):
+                raise OverflowError("cannot convert float infinity to integer")
+            lim = float(1 << (self.INTW - 2))
+            if bool(SymBool(z3.Or(z3.fpGEQ(self.t, _fconst(lim)), z3.fpLEQ(self.t, _fconst(-lim))))):
+                raise Unsupported("float to int beyond %d bits" % self.INTW)
+            w = self.INTW
+        else:
+            # finite and bounded by construction (interval analysis of the term): no NaN/Inf/overflow branch exists
+            w = max(8, int(b).bit_length() + 3)
+        return SymInt(z3.fpToSBV(rm, self.t, z3.BitVecSort(w)))
 
     def __round__(self, n=None):
         if n is None:
@@ -511,6 +517,40 @@ class SymFloat:
 
     def __repr__(self):
         return "SymFloat(%s)" % self.t
+
+
+def fp_abs_bound(t):
+    """sound upper bound of |value| of an FP term built from bounded pieces, or None when unknown / possibly non-finite"""
+    k = t.decl().kind() if z3.is_app(t) else None
+    if z3.is_fp_value(t):
+        if t.isNaN() or t.isInf():
+            return None
+        return abs(fpval_to_float(t))
+    ch = t.children()
+    if k == z3.Z3_OP_FPA_TO_FP and len(ch) == 2 and z3.is_bv(ch[1]):
+        return float(1 << ch[1].size())
+    if k == z3.Z3_OP_FPA_TO_FP_UNSIGNED and len(ch) == 2:
+        return float(1 << ch[1].size())
+    if k in (z3.Z3_OP_FPA_MUL, z3.Z3_OP_FPA_DIV, z3.Z3_OP_FPA_ADD, z3.Z3_OP_FPA_SUB):
+        a, b = fp_abs_bound(ch[1]), fp_abs_bound(ch[2])
+        if a is None or b is None:
+            return None
+        if k == z3.Z3_OP_FPA_MUL:
+            r = a * b
+        elif k == z3.Z3_OP_FPA_DIV:
+            if not z3.is_fp_value(ch[2]) or b == 0:
+                return None
+            r = a / b
+        else:
+            r = a + b
+        r = r * 1.0000001
+        return r if r < 1e300 else None
+    if k in (z3.Z3_OP_FPA_NEG, z3.Z3_OP_FPA_ABS):
+        return fp_abs_bound(ch[0])
+    if k == z3.Z3_OP_ITE:
+        a, b = fp_abs_bound(ch[1]), fp_abs_bound(ch[2])
+        return None if a is None or b is None else max(a, b)
+    return None
 
 
 def to_float(x):
